@@ -19,7 +19,7 @@ use zipora::compression::dict_zip::{DfaCacheConfig, SuffixArrayDictionary, Suffi
 use zipora::compression::suffix_array::{SuffixArrayCompressor, SuffixArrayConfig as CompConfig};
 
 const HEADER: &str = r#"From ZV.Common Require Import Base Run.
-From ZV.C12 Require Import Spec Model ModelDict ModelEsa ModelCases.
+From ZV.C12 Require Import Spec Model ModelDict ModelEsa ModelSais ModelCases.
 Open Scope nat_scope.
 "#;
 
@@ -44,6 +44,10 @@ struct Ctx {
     core_coq: usize,
     esa_coq: usize,
     esa_coq_budget: usize,
+    sais_coq: usize,
+    sais_coq_budget: usize,
+    sais_seen: usize,
+    sais_stride: usize,
 }
 
 // ---------- the oracle: the property itself, naively ----------
@@ -231,6 +235,13 @@ fn core_case(cx: &mut Ctx, alg_i: usize, variant: u64, t: &[u8], pats: &[Vec<u8>
                 obs.pats.push((p.clone(), range, srch));
             }
         }
+    }
+    // SA-IS: the Gallina model of the algorithm must return the same array
+    if resolved == Alg::SAIS && n >= 2 && n <= 300 { cx.sais_seen += 1; }
+    if resolved == Alg::SAIS && n >= 2 && n <= 300 && (force_coq || (cx.sais_seen % cx.sais_stride == 0 && cx.sais_coq < cx.sais_coq_budget)) {
+        cx.sais_coq += 1;
+        let term = format!("Sais {} {} {}", coq_bool(cfg.optimize_small_alphabet), coq_bytes(t), coq_n_list(sa.iter().map(|&x| x as u128)));
+        cx.shards.push(term, cj.clone());
     }
     push_coq(cx, alg_i, cfg.adaptive_threshold, alg_index(resolved), t, &obs, &cj, force_coq);
 }
@@ -586,6 +597,10 @@ pub fn run(args: &Args) {
         dict_coq: 0,
         core_coq: 0,
         esa_coq: 0,
+        sais_coq: 0,
+        sais_coq_budget: if args.thorough { 1500 } else { 110 },
+        sais_seen: 0,
+        sais_stride: 1,
         esa_coq_budget: if args.thorough { 400 } else { 50 },
         dict_coq_budget: if args.thorough { 900 } else { 120 },
     };
@@ -620,6 +635,7 @@ pub fn run(args: &Args) {
         for s in all_strings(&alpha, maxl) { universe.push((s, pats.clone())); }
     }
     cx.sum.dist_max("enumerated_texts", universe.len() as u64);
+    cx.sais_stride = (universe.len() / (cx.sais_coq_budget / 2)).max(1);
     let stride = (universe.len() * 5 / (cx.coq_budget * 2 / 3)).max(1);
     let mut k = 0usize;
     for (t, pats) in &universe {
@@ -645,6 +661,7 @@ pub fn run(args: &Args) {
         }
     }
     // ---- generated ----
+    cx.sais_stride = if args.thorough { 17 } else { 23 };
     let ng = if args.thorough { 50000 } else { 2400 };
     for i in 0..ng {
         let (t, kind) = gen_text(&mut rng, if i % 16 == 0 { 2000 } else { 260 });
